@@ -1370,7 +1370,6 @@ package reflect
 //@   panics when t.T != tMAP
 //@   ensures c02_registered: implementsAppend(t)
 
-
 //@ func (f *tField) EncodedSize() (n int)
 //@   requires f != nil && f.Type != nil && wfT(f.Type)
 //@   modifies nothing
@@ -1407,4 +1406,3 @@ package reflect
 //@   loop 3 invariant var: forall j int :: {d.varLenFields[j]} 0 <= j && j < len(d.varLenFields) ==> 0 <= d.varLenFields[j] && d.varLenFields[j] <= rangeindex
 //@   loop 3 invariant len(d.varLenFields) <= rangeindex + 1 && len(d.requiredFieldIDs) <= rangeindex + 1 && cap(d.varLenFields) == len(ff) && cap(d.requiredFieldIDs) == len(ff)
 //@   loop 3 invariant 0 <= d.fixedLenFieldSize && d.fixedLenFieldSize <= 11 * (rangeindex + 1)
-
